@@ -684,6 +684,12 @@ class Explorer:
             ck = n.get("ck")
             if ck == "LValueToRValue":
                 sub = f.nodes[f.strip(c[0], casts=False)]
+                if sub["k"] == "UnaryOperator" and sub.get("op") == "*":
+                    # *p where p points into a known string (a C string pointer advanced k characters is the
+                    # suffix of the string)
+                    pv = self.V(f, fid, sub["c"][0], st)
+                    if pv[0] == "str":
+                        return INT(ord(pv[1][0])) if pv[1] else INT(0)
                 if sub["k"] == "ArraySubscriptExpr":
                     bv = self.V(f, fid, sub["c"][0], st)
                     iv = self.V(f, fid, sub["c"][1], st)
@@ -796,6 +802,8 @@ class Explorer:
                         new = TOP
                 elif old[0] == "ptr" and old[2] and isinstance(old[2][-1], int):
                     new = PTR(old[1], old[2][:-1] + (old[2][-1] + d_,))
+                elif old[0] == "str" and d_ == 1 and old[1]:
+                    new = ("str", old[1][1:])
                 else:
                     new = TOP
                 if loc is not None:
@@ -863,6 +871,8 @@ class Explorer:
                     # two pointers into the same array: compare the positions
                     return INT(1 if CMPS[op](a[2][-1], b[2][-1]) else 0)
                 return TOP
+            if op == "+" and a[0] == "str" and b[0] == "int" and 0 <= b[1] <= len(a[1]):
+                return ("str", a[1][b[1]:])
             if op in ("+", "-") and a[0] == "ptr" and b[0] == "int" and a[2] and isinstance(a[2][-1], int):
                 return PTR(a[1], a[2][:-1] + (a[2][-1] + (b[1] if op == "+" else -b[1]),))
             if op == "+" and a[0] == "ptr" and b[0] == "lin" and a[2]:
